@@ -16,6 +16,9 @@ Proof. ring_lin N OK. Qed.
 (* AGREE gen_bezier2polynomial_1 *)
 Lemma agree_bezier2polynomial_1 p0 : gen_bezier2polynomial_1 N p0 = bezier2polynomial N [p0].
 Proof. field_lin N OK. Qed.
+(* AGREE gen_bezier2polynomial_asc_1 *)
+Lemma agree_bezier2polynomial_asc_1 p0 : gen_bezier2polynomial_asc_1 N p0 = rev (bezier2polynomial N [p0]).
+Proof. field_lin N OK. Qed.
 (* AGREE gen_bezier_point_real_1 *)
 Lemma agree_bezier_point_real_1 (x0 : K) t : gen_bezier_point_real_1 N x0 t = fst (bezier_point N [(x0, zero N)] t).
 Proof. ring_lin N OK. Qed.
@@ -24,6 +27,9 @@ Lemma agree_bezier_point_2 p0 p1 t : gen_bezier_point_2 N p0 p1 t = bezier_point
 Proof. ring_lin N OK. Qed.
 (* AGREE gen_bezier2polynomial_2 *)
 Lemma agree_bezier2polynomial_2 p0 p1 : gen_bezier2polynomial_2 N p0 p1 = bezier2polynomial N [p0; p1].
+Proof. field_lin N OK. Qed.
+(* AGREE gen_bezier2polynomial_asc_2 *)
+Lemma agree_bezier2polynomial_asc_2 p0 p1 : gen_bezier2polynomial_asc_2 N p0 p1 = rev (bezier2polynomial N [p0; p1]).
 Proof. field_lin N OK. Qed.
 (* AGREE gen_split_bezier_2 *)
 Lemma agree_split_bezier_2 p0 p1 t : gen_split_bezier_2 N p0 p1 t = split_bezier N [p0; p1] t.
@@ -40,6 +46,9 @@ Proof. ring_lin N OK. Qed.
 (* AGREE gen_bezier2polynomial_3 *)
 Lemma agree_bezier2polynomial_3 p0 p1 p2 : gen_bezier2polynomial_3 N p0 p1 p2 = bezier2polynomial N [p0; p1; p2].
 Proof. field_lin N OK. Qed.
+(* AGREE gen_bezier2polynomial_asc_3 *)
+Lemma agree_bezier2polynomial_asc_3 p0 p1 p2 : gen_bezier2polynomial_asc_3 N p0 p1 p2 = rev (bezier2polynomial N [p0; p1; p2]).
+Proof. field_lin N OK. Qed.
 (* AGREE gen_split_bezier_3 *)
 Lemma agree_split_bezier_3 p0 p1 p2 t : gen_split_bezier_3 N p0 p1 p2 t = split_bezier N [p0; p1; p2] t.
 Proof. ring_lin N OK. Qed.
@@ -54,6 +63,9 @@ Lemma agree_bezier_point_4 p0 p1 p2 p3 t : gen_bezier_point_4 N p0 p1 p2 p3 t = 
 Proof. ring_lin N OK. Qed.
 (* AGREE gen_bezier2polynomial_4 *)
 Lemma agree_bezier2polynomial_4 p0 p1 p2 p3 : gen_bezier2polynomial_4 N p0 p1 p2 p3 = bezier2polynomial N [p0; p1; p2; p3].
+Proof. field_lin N OK. Qed.
+(* AGREE gen_bezier2polynomial_asc_4 *)
+Lemma agree_bezier2polynomial_asc_4 p0 p1 p2 p3 : gen_bezier2polynomial_asc_4 N p0 p1 p2 p3 = rev (bezier2polynomial N [p0; p1; p2; p3]).
 Proof. field_lin N OK. Qed.
 (* AGREE gen_split_bezier_4 *)
 Lemma agree_split_bezier_4 p0 p1 p2 p3 t : gen_split_bezier_4 N p0 p1 p2 p3 t = split_bezier N [p0; p1; p2; p3] t.
@@ -70,6 +82,9 @@ Proof. ring_lin N OK. Qed.
 (* AGREE gen_bezier2polynomial_5 *)
 Lemma agree_bezier2polynomial_5 p0 p1 p2 p3 p4 : gen_bezier2polynomial_5 N p0 p1 p2 p3 p4 = bezier2polynomial N [p0; p1; p2; p3; p4].
 Proof. field_lin N OK. Qed.
+(* AGREE gen_bezier2polynomial_asc_5 *)
+Lemma agree_bezier2polynomial_asc_5 p0 p1 p2 p3 p4 : gen_bezier2polynomial_asc_5 N p0 p1 p2 p3 p4 = rev (bezier2polynomial N [p0; p1; p2; p3; p4]).
+Proof. field_lin N OK. Qed.
 (* AGREE gen_split_bezier_5 *)
 Lemma agree_split_bezier_5 p0 p1 p2 p3 p4 t : gen_split_bezier_5 N p0 p1 p2 p3 p4 t = split_bezier N [p0; p1; p2; p3; p4] t.
 Proof. ring_lin N OK. Qed.
@@ -84,6 +99,9 @@ Lemma agree_bezier_point_6 p0 p1 p2 p3 p4 p5 t : gen_bezier_point_6 N p0 p1 p2 p
 Proof. ring_lin N OK. Qed.
 (* AGREE gen_bezier2polynomial_6 *)
 Lemma agree_bezier2polynomial_6 p0 p1 p2 p3 p4 p5 : gen_bezier2polynomial_6 N p0 p1 p2 p3 p4 p5 = bezier2polynomial N [p0; p1; p2; p3; p4; p5].
+Proof. field_lin N OK. Qed.
+(* AGREE gen_bezier2polynomial_asc_6 *)
+Lemma agree_bezier2polynomial_asc_6 p0 p1 p2 p3 p4 p5 : gen_bezier2polynomial_asc_6 N p0 p1 p2 p3 p4 p5 = rev (bezier2polynomial N [p0; p1; p2; p3; p4; p5]).
 Proof. field_lin N OK. Qed.
 (* AGREE gen_split_bezier_6 *)
 Lemma agree_split_bezier_6 p0 p1 p2 p3 p4 p5 t : gen_split_bezier_6 N p0 p1 p2 p3 p4 p5 t = split_bezier N [p0; p1; p2; p3; p4; p5] t.
@@ -100,6 +118,9 @@ Proof. ring_lin N OK. Qed.
 (* AGREE gen_bezier2polynomial_7 *)
 Lemma agree_bezier2polynomial_7 p0 p1 p2 p3 p4 p5 p6 : gen_bezier2polynomial_7 N p0 p1 p2 p3 p4 p5 p6 = bezier2polynomial N [p0; p1; p2; p3; p4; p5; p6].
 Proof. field_lin N OK. Qed.
+(* AGREE gen_bezier2polynomial_asc_7 *)
+Lemma agree_bezier2polynomial_asc_7 p0 p1 p2 p3 p4 p5 p6 : gen_bezier2polynomial_asc_7 N p0 p1 p2 p3 p4 p5 p6 = rev (bezier2polynomial N [p0; p1; p2; p3; p4; p5; p6]).
+Proof. field_lin N OK. Qed.
 (* AGREE gen_split_bezier_7 *)
 Lemma agree_split_bezier_7 p0 p1 p2 p3 p4 p5 p6 t : gen_split_bezier_7 N p0 p1 p2 p3 p4 p5 p6 t = split_bezier N [p0; p1; p2; p3; p4; p5; p6] t.
 Proof. ring_lin N OK. Qed.
@@ -115,6 +136,9 @@ Proof. ring_lin N OK. Qed.
 (* AGREE gen_bezier2polynomial_8 *)
 Lemma agree_bezier2polynomial_8 p0 p1 p2 p3 p4 p5 p6 p7 : gen_bezier2polynomial_8 N p0 p1 p2 p3 p4 p5 p6 p7 = bezier2polynomial N [p0; p1; p2; p3; p4; p5; p6; p7].
 Proof. field_lin N OK. Qed.
+(* AGREE gen_bezier2polynomial_asc_8 *)
+Lemma agree_bezier2polynomial_asc_8 p0 p1 p2 p3 p4 p5 p6 p7 : gen_bezier2polynomial_asc_8 N p0 p1 p2 p3 p4 p5 p6 p7 = rev (bezier2polynomial N [p0; p1; p2; p3; p4; p5; p6; p7]).
+Proof. field_lin N OK. Qed.
 (* AGREE gen_split_bezier_8 *)
 Lemma agree_split_bezier_8 p0 p1 p2 p3 p4 p5 p6 p7 t : gen_split_bezier_8 N p0 p1 p2 p3 p4 p5 p6 p7 t = split_bezier N [p0; p1; p2; p3; p4; p5; p6; p7] t.
 Proof. ring_lin N OK. Qed.
@@ -129,6 +153,9 @@ Lemma agree_bezier_point_9 p0 p1 p2 p3 p4 p5 p6 p7 p8 t : gen_bezier_point_9 N p
 Proof. ring_lin N OK. Qed.
 (* AGREE gen_bezier2polynomial_9 *)
 Lemma agree_bezier2polynomial_9 p0 p1 p2 p3 p4 p5 p6 p7 p8 : gen_bezier2polynomial_9 N p0 p1 p2 p3 p4 p5 p6 p7 p8 = bezier2polynomial N [p0; p1; p2; p3; p4; p5; p6; p7; p8].
+Proof. field_lin N OK. Qed.
+(* AGREE gen_bezier2polynomial_asc_9 *)
+Lemma agree_bezier2polynomial_asc_9 p0 p1 p2 p3 p4 p5 p6 p7 p8 : gen_bezier2polynomial_asc_9 N p0 p1 p2 p3 p4 p5 p6 p7 p8 = rev (bezier2polynomial N [p0; p1; p2; p3; p4; p5; p6; p7; p8]).
 Proof. field_lin N OK. Qed.
 (* AGREE gen_split_bezier_9 *)
 Lemma agree_split_bezier_9 p0 p1 p2 p3 p4 p5 p6 p7 p8 t : gen_split_bezier_9 N p0 p1 p2 p3 p4 p5 p6 p7 p8 t = split_bezier N [p0; p1; p2; p3; p4; p5; p6; p7; p8] t.
